@@ -38,7 +38,7 @@ pub fn impl_ebml_specification(original: &mut ItemEnum) -> Result<TokenStream> {
 
     let map: HashMap<_, _> = input.variants.iter().map(|var|(&var.ident, var)).collect();
     for origin in &input.variants {
-        if !matches!(origin.data_type_attr.0, TagDataType::Master) && origin.path_attr.is_some() {
+        if origin.path_attr.is_some() {
             validate_path(origin, &map)?;
         }
     }
@@ -70,14 +70,18 @@ fn validate_path(origin: &crate::ast::Variant, variants_map: &HashMap<&Ident, &c
                 return Err(Error::new_spanned(parent.original, "Parents must be of Master type"))
             }
 
-            if let Some((parent_path, _)) = parent.path_attr.as_ref() {
-                for i in 0..parent_path.parts.len() {
-                    if parent_path.parts[i] != path_parts[i] {
-                        return Err(Error::new_spanned(origin.original, format!("Path segment [{}] did not align with parent [{}] path.", path_parts[i], parent.ident)));
-                    }
-                }
-                validate_path(parent, variants_map)?;
+            // The parent's own path must lead up to where the parent appears in this path
+            let parent_index = path_parts.iter().rposition(|p| matches!(p, PathPart::Ident(_))).unwrap();
+            let parent_path: Vec<&PathPart> = parent.path_attr.as_ref().map(|(path, _)| path.parts.iter().collect()).unwrap_or_default();
+            if parent_path.len() != parent_index {
+                return Err(Error::new_spanned(origin.original, format!("Path did not align with parent [{}] path.", parent.ident)));
             }
+            for i in 0..parent_path.len() {
+                if *parent_path[i] != path_parts[i] {
+                    return Err(Error::new_spanned(origin.original, format!("Path segment [{}] did not align with parent [{}] path.", path_parts[i], parent.ident)));
+                }
+            }
+            validate_path(parent, variants_map)?;
         }
     }
 
